@@ -99,7 +99,7 @@ func c36expiry(keydir string) {
 	const lifetime = 400 * time.Millisecond
 	now := time.Now()
 	instA := v.AddInstance(xpAlgo(1001), chanID, 1, 0, now, lifetime) // token A: expires at now + 500 ms
-	v.AddInstance(xpAlgo(2002), chanID, 2, 0, now, time.Hour)          // token B: the renewal
+	v.AddInstance(xpAlgo(2002), chanID, 2, 0, now, time.Hour)         // token B: the renewal
 	expired := make(chan struct{})
 	go func() { v.RunExpiration(instA); close(expired) }()
 
